@@ -5,7 +5,7 @@
    max_exact_at), Acme.C19.ModelChk (run_chk: the same operations, failing where the Go code would
    dereference nil). All statements quantify over every finite operation history `ops`. *)
 From Coq Require Import ZArith List Bool Sorting.Sorted Sorting.Permutation.
-From Acme.C19 Require Import Model Spec ModelChk Proofs.
+From Acme.C19 Require Import Model Spec ModelChk PreFix Proofs ProofsItems.
 Import ListNotations.
 Open Scope Z_scope.
 
@@ -89,8 +89,70 @@ Theorem can_update_without_disjointness_refuted :
 Proof. exact can_update_needs_disjoint. Qed.
 Print Assumptions can_update_without_disjointness_refuted.
 
+(* ---- items: the tree stores values with a payload (modelled as a tag) and must hand back
+   exactly the items it was given.  `stored s = items (root s)` is GetAllIntervals with payloads,
+   `contents` its bounds. ---- *)
+
+(* the stored items are a permutation of an admissible item-level resolution of the history:
+   Insert adds the given item (unless inverted), Delete(lo,hi) removes ONE item with those bounds
+   (whichever) or nothing when there is none, Clear empties *)
+Theorem items_spec : forall ops,
+  exists res, item_spec ops res /\ Permutation (stored (run ops)) res.
+Proof. exact items_spec_proof. Qed.
+Print Assumptions items_spec.
+
+(* the bounds of the stored items are the `contents` all other theorems speak about *)
+Theorem items_keys : forall ops, map key (stored (run ops)) = contents (run ops).
+Proof. exact items_keys_proof. Qed.
+Print Assumptions items_keys.
+
+(* sub-multiset: every stored item was inserted since the last Clear, no more often than inserted *)
+Theorem items_from_inserted : forall ops,
+  exists rest, Permutation (stored (run ops) ++ rest) (inserted ops).
+Proof. exact items_from_inserted_proof. Qed.
+Print Assumptions items_from_inserted.
+
+(* no payload is ever duplicated *)
+Theorem items_nodup : forall ops,
+  NoDup (map tag (inserted ops)) -> NoDup (map tag (stored (run ops))).
+Proof. exact items_nodup_proof. Qed.
+Print Assumptions items_nodup.
+
+(* satisfiable and non-trivial: five items with equal bounds, two-children deletes *)
+Theorem items_example :
+  NoDup (map tag (inserted dup_ops))
+  /\ map tag (stored (run dup_ops)) = [1; 3; 4; 8]
+  /\ contents (run dup_ops) = [(0, 0); (0, 0); (0, 0); (0, 0)].
+Proof. exact dup_example. Qed.
+Print Assumptions items_example.
+
+(* finding c19-items (fixed by /repo ca4c8a3): the previous algorithm, which deleted the successor
+   BY KEY (PreFix.del_by_key), stores one payload twice and loses another while bounds and size
+   stay right *)
+Theorem items_by_key_refuted :
+  exists ops,
+    NoDup (map tag (inserted ops))
+    /\ ~ NoDup (map tag (stored (run_by_key ops)))
+    /\ (exists x, In x (stored (run ops)) /\ ~ In x (stored (run_by_key ops)))
+    /\ contents (run_by_key ops) = contents (run ops)
+    /\ size (run_by_key ops) = size (run ops).
+Proof. exact items_by_key_refuted_proof. Qed.
+Print Assumptions items_by_key_refuted.
+
+(* can_update_exact needs `In x contents`: for an item that is not stored the `size <= 1` shortcut
+   answers true although the one stored interval is hit.  The property's "the interval being
+   updated" is a stored interval, so this lies outside it. *)
+Theorem can_update_foreign_item_refuted :
+  exists ops (x : Z * Z) newlo newhi,
+    pairwise_disjoint (spec ops) /\ ~ In x (contents (run ops)) /\
+    can_update (run ops) (fst x) (snd x) newlo newhi
+    <> negb (existsb (fun y => overlaps (newlo, newhi) y && negb (same x y)) (contents (run ops))).
+Proof. exact can_update_foreign_refuted_proof. Qed.
+Print Assumptions can_update_foreign_item_refuted.
+
 (* rot_defined: the branches where Model.v totalises a nil dereference of the Go code
-   (rotateLeft/rotateRight on a missing child, root.left.item / root.right.item in insertNode)
+   (rotateLeft/rotateRight on a missing child, root.left.item / root.right.item in insertNode,
+   removeMin on an empty subtree)
    are never taken from a reachable state: the partial model succeeds and agrees with `run` *)
 Theorem rot_defined : forall ops, run_chk ops = Some (run ops).
 Proof. exact run_chk_defined. Qed.
